@@ -24,6 +24,21 @@ func vC04Elem(allowVoid bool) JsonNode {
 	if allowVoid {
 		n = 11
 	}
+	if vParam("RICH", 0) == 1 {
+		// richer element kinds (two-key objects, nesting) instead of the string / scalar kinds
+		switch vChoice(5) {
+		case 0:
+			return jsonNumber(vF64())
+		case 1:
+			return jsonObject{"a": jsonNumber(vF64()), "b": jsonNumber(vF64())}
+		case 2:
+			return jsonArray{jsonArray{jsonNumber(vF64()), jsonNumber(vF64())}}
+		case 3:
+			return jsonObject{"a": jsonArray{jsonNumber(vF64()), jsonNumber(vF64())}}
+		default:
+			return jsonArray{jsonNumber(vF64()), jsonNumber(vF64()), jsonNumber(vF64())}
+		}
+	}
 	switch vChoice(n) {
 	case 0:
 		return jsonNumber(vF64())
